@@ -193,10 +193,9 @@ theorem trapz_exact_linear_segment (a b : ℚ) : ∀ (xs : List ℚ) (x0 : ℚ),
 
 /-! ### binning -/
 
-/-- trapezoid binning returns one value per requested centre (both end treatments, with or without power preservation) -/
-theorem bin_length_trapz (s : Spectrum) (sym : Bool) (fl fr : ℚ) (norm : Option ℚ) (c bins : List ℚ)
-    (h : bin s false sym fl fr norm c = .ok bins) : bins.length = c.length := by
-  simp only [bin, Bool.false_eq_true, if_false] at h
+theorem binRaw_length_trapz (s : Spectrum) (sym : Bool) (fl fr : ℚ) (c bins : List ℚ)
+    (h : binRaw s false sym fl fr c = .ok bins) : bins.length = c.length := by
+  simp only [binRaw, Bool.false_eq_true, if_false] at h
   split at h
   · cases h
   · rename_i hc
@@ -218,7 +217,17 @@ theorem bin_length_trapz (s : Spectrum) (sym : Bool) (fl fr : ℚ) (norm : Optio
         | [], h' => simp at h'
         | [c0], h' => simp at h'
       have hb := trapzBins_length _ _ (hl.trans rfl).symm
-      split at h <;> cases h <;> simp [hb, he]
+      cases h; simp [hb, he]
+
+/-- trapezoid binning returns one value per requested centre (both end treatments, with or without power preservation) -/
+theorem bin_length_trapz (s : Spectrum) (sym : Bool) (fl fr : ℚ) (pp : Option (Option ℚ)) (c bins : List ℚ)
+    (h : bin s false sym fl fr pp c = .ok bins) : bins.length = c.length := by
+  simp only [bin] at h
+  split at h
+  · cases h
+  · rename_i raw hraw
+    have := binRaw_length_trapz s sym fl fr c raw hraw
+    split at h <;> cases h <;> simp [this]
 
 /-- Tᵖ: trapezoid bins of non-negative samples over increasing edges are non-negative. Gap (checked by the oracle
 only): that the linear interpolant of a non-negative spectrum with non-negative fill is non-negative at every edge and
@@ -226,15 +235,19 @@ that the edges of increasing centres are increasing. -/
 theorem bin_trapz_nonneg_partial (x f : List ℚ) (hx : StrictInc x) (hf : ∀ v ∈ f, 0 ≤ v) :
     ∀ b ∈ trapzBins x f, 0 ≤ b := trapzBins_nonneg x f hx hf
 
-/-- with power preservation the bins sum to the spectrum's integral over the span of the centres -/
-theorem bin_preserve_power_sum (bins : List ℚ) (I : ℚ) (h : sumL bins ≠ 0) :
-    sumL (bins.map (· * (I / sumL bins))) = I := by
-  have hm : ∀ (l : List ℚ) (c : ℚ), (l.map (· * c)).sum = l.sum * c := by
-    intro l c; induction l with
-    | nil => simp
-    | cons a l ih => simp [ih, add_mul]
-  rw [sumL_eq_sum, hm, ← sumL_eq_sum]
-  field_simp
+/-- with power preservation the trapezoid bins sum to the spectrum's (trapezoid) integral over the span of the centres,
+`integrate s (min centres) (max centres)` — provided the un-normalised bins do not sum to zero (then the code divides 0/0) -/
+theorem bin_preserve_power_sum (s : Spectrum) (sym : Bool) (fl fr : ℚ) (c raw : List ℚ) (a b : ℚ)
+    (hraw : binRaw s false sym fl fr c = .ok raw) (h : sumL raw ≠ 0) (ha : minL c = some a) (hb : maxL c = some b) :
+    ∃ bins, bin s false sym fl fr (some none) c = .ok bins ∧ sumL bins = integrate s a b := by
+  refine ⟨raw.map (· * (integrate s a b / sumL raw)), ?_, ?_⟩
+  · simp [bin, hraw, binNorm, ha, hb]
+  · have hm : ∀ (l : List ℚ) (k : ℚ), (l.map (· * k)).sum = l.sum * k := by
+      intro l k; induction l with
+      | nil => simp
+      | cons x l ih => simp [ih, add_mul]
+    rw [sumL_eq_sum, hm, ← sumL_eq_sum]
+    field_simp
 
 /-! ### crop keeps exactly the closed range -/
 
@@ -310,6 +323,14 @@ theorem trim_first_to_last_above_tol (tol : ℚ) (s : Spectrum) (m : ℚ)
       refine ⟨a, b, rfl, ⟨va, hva, by simpa using hpa⟩, ?_, ⟨vb, hvb, by simpa using hpb⟩, ?_⟩
       · intro j hj v hv; simpa using hlta j hj v hv
       · intro j hj v hv; simpa using hltb j hj v hv
+
+/-- KNOWN FINDING witness (KF-C15-bin-integer-centres): with centres given as an integer-dtype array the Simpson grid
+is an integer array and its mid-points are truncated; for the linear spectrum 2λ+1 on [500, 520] and centres
+503, 506, 509, 512 the bins are not the exact integrals 3021, 3039, 3057, 3075 (which float centres give) -/
+theorem kf_bin_integer_centres :
+    bin ⟨[500, 520], [1001, 1041]⟩ true true 0 0 none [503, 506, 509, 512] (intC := false) = .ok [3021, 3039, 3057, 3075] ∧
+    bin ⟨[500, 520], [1001, 1041]⟩ true true 0 0 none [503, 506, 509, 512] (intC := true) ≠ .ok [3021, 3039, 3057, 3075] := by
+  constructor <;> decide +kernel
 
 /-- non-vacuity: a history with an accepted crop, a refused append and an accepted pad -/
 example : run ⟨[1, 2, 4, 8], [5, 6, 7, 8]⟩ [.crop 2 5, .append ⟨[3, 9], [1, 1]⟩, .pad 1 6 none false 0 0]
